@@ -132,6 +132,56 @@ func (s *parkSub) SetVerifier(f func(context.Context, *ParkHeader) error) error 
 	return nil
 }
 
+// slowStore is the header.Store handed to the Syncer: the real store, whose Append calls - while on - park right
+// before the write until the driver releases them (err == nil: the write goes on) or fails them.
+type slowStore struct {
+	*store.Store[*ParkHeader]
+	mu     gosync.Mutex
+	on     bool
+	parked []*slowWrite
+}
+
+type slowWrite struct {
+	who int // learner call number, -1 = the sync loop
+	rel chan error
+}
+
+func (s *slowStore) Append(ctx context.Context, hs ...*ParkHeader) error {
+	s.mu.Lock()
+	if !s.on {
+		s.mu.Unlock()
+		return s.Store.Append(ctx, hs...)
+	}
+	w := &slowWrite{who: -1, rel: make(chan error, 1)}
+	if v, ok := ctx.Value(whoKey{}).(int); ok {
+		w.who = v
+	}
+	s.parked = append(s.parked, w)
+	s.mu.Unlock()
+	if err := <-w.rel; err != nil {
+		return err
+	}
+	return s.Store.Append(ctx, hs...)
+}
+
+// newest returns (and forgets) the most recently parked write.
+func (s *slowStore) newest() *slowWrite {
+	s.mu.Lock()
+	defer s.mu.Unlock()
+	if len(s.parked) == 0 {
+		return nil
+	}
+	w := s.parked[len(s.parked)-1]
+	s.parked = s.parked[:len(s.parked)-1]
+	return w
+}
+
+func (s *slowStore) nparked() int {
+	s.mu.Lock()
+	defer s.mu.Unlock()
+	return len(s.parked)
+}
+
 // ParkRun is what a corpus run observed, in the vocabulary of Oracle/C07.v and Oracle/C03.v.
 type ParkRun struct {
 	Drift   int64
@@ -144,6 +194,7 @@ type ParkRun struct {
 	Heights []uint64 // datastore height index
 	Hashes  int
 	Wait    bool // SyncWait returned nil
+	Gate    bool // the underlying store's writes were parked and released by the driver
 	Note    string
 }
 
@@ -181,7 +232,8 @@ func RunStraddle(kind string) (run *ParkRun, ok bool, err error) {
 	}
 	g := &parkGetter{}
 	sub := &parkSub{}
-	sy, err := sync.NewSyncer[*ParkHeader](g, st, sub,
+	gs := &slowStore{Store: st}
+	sy, err := sync.NewSyncer[*ParkHeader](g, gs, sub,
 		sync.WithSyncFromHash(hex.EncodeToString(at(15).Hash())), sync.WithBlockTime(time.Nanosecond),
 		sync.WithTrustingPeriod(1000*time.Hour), sync.WithPruningWindow(2000*time.Hour))
 	if err != nil {
@@ -236,6 +288,14 @@ func RunStraddle(kind string) (run *ParkRun, ok bool, err error) {
 			o.HeadID = reg.ID(h.Hash())
 			if a, err := st.GetByHeight(ctx, o.Head); err == nil && a != nil {
 				o.HeadID = reg.ID(a.Hash())
+			}
+			o.Top = o.Head
+			for k := uint64(1); k <= 4; k++ {
+				c2, cancel2 := context.WithTimeout(context.Background(), 5*time.Millisecond)
+				if a, err := st.GetByHeight(c2, o.Head+k); err == nil && a != nil {
+					o.Top = o.Head + k
+				}
+				cancel2()
 			}
 		}
 		if lh, err := sy.Head(ctx); err == nil && lh != nil { // the getter's Head fails: the subjective head
@@ -408,6 +468,113 @@ func RunStraddle(kind string) (run *ParkRun, ok bool, err error) {
 			run.Note = "a Head() call parked inside syncStore.Append did NOT exclude other Appends: 18, 19, 20 were learned meanwhile, then it stored its older head"
 		}
 		gossip(20) // known: refused; its observation shows the final state
+	case "slowwrite", "failwrite_loop", "failwrite_gossip":
+		// The underlying store is slow: every Store.Append parks right before the write; the driver releases the parked
+		// write (it goes on) or FAILS it (as store.Append does when its write queue is full and the caller's context
+		// ends, or the store stops).  syncStore.Append keeps its lock across the write (/repo 40dc6a8) and moves its head
+		// only after the write succeeded (/repo f604e5b): while a write is parked nobody else can start an Append and
+		// nothing has changed; after a failed write nothing has changed either.  The store has no gap at any
+		// observation - also those taken WHILE a write is parked.
+		run.Gate = true
+		gs.mu.Lock()
+		gs.on = true
+		gs.mu.Unlock()
+		finish := func(w *slowWrite, err error) {
+			w.rel <- err
+			settle()
+			settle()
+			name := "Rel"
+			if err != nil {
+				name = "Fail"
+			}
+			if w.who < 0 {
+				obs("D"+name+"L", 0)
+			} else {
+				obs(fmt.Sprintf("(D%sT %d)", name, w.who), 0)
+			}
+		}
+		relNewest := func() bool {
+			w := gs.newest()
+			if w == nil {
+				return false
+			}
+			finish(w, nil)
+			return true
+		}
+		failNewest := func() bool {
+			w := gs.newest()
+			if w == nil {
+				return false
+			}
+			finish(w, errors.New("syncfx: the store's write failed"))
+			return true
+		}
+		// a gossip delivery in its own goroutine (its Append may park in the store)
+		agossip := func(n uint64) {
+			i := len(results)
+			now := time.Now().UnixNano()
+			res := make(chan error, 1)
+			results = append(results, res)
+			x := at(n)
+			go func() { res <- sub.v(WithWho(context.Background(), i), x) }()
+			time.Sleep(150 * time.Millisecond)
+			ret := 3
+			select {
+			case err := <-res:
+				res <- err
+				ret = 1
+				if err != nil {
+					ret = 2
+				}
+			default:
+			}
+			obs(fmt.Sprintf("(DDeliver %s %s (Bif [] false))", term(x), emit.Z(now)), ret)
+		}
+		drain := func() {
+			for i := 0; i < 8 && relNewest(); i++ {
+			}
+		}
+		switch kind {
+		case "slowwrite":
+			// released newest-first; gossip of the adjacent 21 arrives while the loop's write of 20 is parked
+			gossip(20) // learner call 0: not adjacent, nothing written; the loop requests (17, 20)
+			answer(at(18), at(19))
+			if gs.nparked() != 1 {
+				return nil, false, nil
+			}
+			relNewest() // 18, 19 written; the loop parks in the write of the cached 20
+			agossip(21)
+			drain()
+			run.Note = "every Store.Append parked before the write and released newest-first; gossip 21 arrives while the loop's write of 20 is parked"
+		case "failwrite_loop":
+			// the sync loop's range write fails; more gossip; a later sync succeeds
+			gossip(20)
+			answer(at(18), at(19))
+			if gs.nparked() != 1 {
+				return nil, false, nil
+			}
+			failNewest() // the write of 18, 19 fails: the attempt ends with the error, the shim's head stays 17
+			agossip(21)  // adjacent to the pending head: verified, queued, wakes the loop, which requests (17, 20) again
+			answer(at(18), at(19))
+			drain()
+			agossip(22)
+			drain()
+			run.Note = "the sync loop's write of 18, 19 fails; gossip 21 restarts the sync, which stores 18..21; gossip 22"
+		case "failwrite_gossip":
+			// a gossip handler's Append of the adjacent header fails
+			agossip(18) // learner call 0: adjacent, its write parks
+			if gs.nparked() != 1 {
+				return nil, false, nil
+			}
+			failNewest() // 18 is not stored; setLocalHead queues it and wakes the loop, whose write of it parks
+			drain()
+			agossip(19)
+			drain()
+			gossip(21)
+			answer(at(20))
+			drain()
+			run.Note = "a gossip handler's write of the adjacent 18 fails; the sync loop stores it; gossip 19 and a skipping 21 follow"
+		}
 	default:
 		return nil, false, fmt.Errorf("unknown kind %q", kind)
 	}
